@@ -131,14 +131,19 @@ def sized_body(rng, target_sizes):
         out += b"\r\n\r\n"
         size = max(0, rng.choice(target_sizes) + rng.choice([-2, -1, 0, 0, 1, 2, 7]))
         kind = rng.random()
-        if kind < 0.6:
+        if kind < 0.12:
+            # a line that starts like a delimiter but is not one, followed by a long run without line breaks:
+            # it can never be emitted as data, so it must hit the buffer limit
+            payload = b"\r\n--" + B + rng.choice([b"x", b"-", b" x", b"--x"]) + b"y" * (size * rng.choice([1, 3]) + 5)
+        elif kind < 0.6:
             payload = bytes(rng.choice(b"abcxyz01") for _ in range(size))
         elif kind < 0.8:
             payload = bytes(rng.choice(b"\r\n") for _ in range(size))
         else:
             payload = bytes(rng.choice(b"ab\r\n-") for _ in range(size))
-        for l in (b"\r\n", b"\n", b"\r"):
-            payload = payload.replace(l + b"--" + B, l + b"-~" + B)
+        if kind >= 0.12:     # (the look-alike line of the first kind is deliberate and is not a delimiter line)
+            for l in (b"\r\n", b"\n", b"\r"):
+                payload = payload.replace(l + b"--" + B, l + b"-~" + B)
         out += payload + b"\r\n"
     out += b"--" + B + b"--\r\n"
     return B, bytes(out)
@@ -329,8 +334,9 @@ def run(chk: Check) -> None:
         raw = SchedStream(body, [rng.choice([0, 3, 16]) for _ in range(4)])
         env = {"REQUEST_METHOD": "POST", "CONTENT_TYPE": "application/x-www-form-urlencoded", "wsgi.input": raw,
                "SERVER_NAME": "x", "SERVER_PORT": "80", "wsgi.url_scheme": "http"}
+        lie = with_len and terminated and rng.random() < 0.4
         if with_len:
-            env["CONTENT_LENGTH"] = str(len(body))
+            env["CONTENT_LENGTH"] = str(len(body) // 3 if lie else len(body))
         if terminated:
             env["wsgi.input_terminated"] = True
         req = Request(env)
@@ -344,6 +350,12 @@ def run(chk: Check) -> None:
             res = type(e).__name__
         chk.case(("req", body, mcl, with_len, terminated), True)
         chk.count("request:" + res)
+        if lie:
+            # a terminated stream that delivers more than it declared: the maximum still applies to what is read
+            if mcl is not None and raw.consumed > mcl + 1:
+                chk.fail("stream-overread", f"{raw.consumed} bytes consumed with max_content_length={mcl} (declared {len(body) // 3}, terminated)",
+                         {"body_len": len(body), "mcl": mcl, "declared": len(body) // 3})
+            continue
         if mcl is not None and (with_len or terminated) and len(body) > mcl and res == "ok":
             chk.fail("content-length-exceeds-limit", f"body of {len(body)} bytes parsed with max_content_length={mcl}",
                      {"body_len": len(body), "mcl": mcl, "content_length": with_len, "terminated": terminated})
@@ -367,12 +379,14 @@ def run(chk: Check) -> None:
         else:
             body = b"--b\r\nContent-Disposition: form-data; name=\"a\"\r\n\r\n" + b"x" * size + b"\r\n--b--\r\n"
             ctype = "multipart/form-data; boundary=b"
-        declared = rng.choice(["absent", "absent", "chunked", "exact"])
+        declared = rng.choice(["absent", "absent", "chunked", "exact", "smaller"])
         raw = SchedStream(body, [rng.choice([0, 2, 7]) for _ in range(5)])
         env = {"REQUEST_METHOD": "POST", "CONTENT_TYPE": ctype, "wsgi.input": raw, "wsgi.input_terminated": True,
                "SERVER_NAME": "x", "SERVER_PORT": "80", "wsgi.url_scheme": "http"}
         if declared == "exact":
             env["CONTENT_LENGTH"] = str(len(body))
+        elif declared == "smaller":
+            env["CONTENT_LENGTH"] = str(min(len(body) // 2, mcl))
         elif declared == "chunked":
             env["HTTP_TRANSFER_ENCODING"] = "chunked"
         try:
